@@ -1,5 +1,6 @@
 import SeqVerif.Model.FetchIndex
 import SeqVerif.Model.Chunking
+import SeqVerif.Model.FetchRange
 import SeqVerif.Extracted.C04T
 /-!
 # C04 - hand models = mechanical translations of the Go source (regenerated on every run)
@@ -93,5 +94,32 @@ theorem c04_t_calcChunkSize (docs : List (List Int)) (prev maxFetch : Nat)
 
 /-- non-vacuity: the historical witnesses of the old sizing are inside the domain and size to at least one -/
 example : T.docsStream_calcChunkSize [[1, 2], [], []] 1000 4194304 = some 4194304 := by rfl
+
+/-- `metaDataCollector.Filter`'s recomputed MID range: `Fetch.filterStats` is the fold of the two translated per-ID
+updates (`if id.MID < c.MinMID {..}`, `if id.MID > c.MaxMID {..}`) over the kept IDs, from the translated start values
+(`c.MinMID = math.MaxUint64`, `c.MaxMID = 0`, whatever the collector held before) -/
+theorem c04_t_filterStats (ids appended : List SV.Fetch.ID) (oldMin oldMax : Int) :
+    (((filterStats ids appended).1 : Nat) : Int) = ((keptIDs ids appended).foldl (fun s i => T.filterMinStep (i.mid : Int) s) (T.filterMinInit oldMin))
+    ∧ (((filterStats ids appended).2 : Nat) : Int) = ((keptIDs ids appended).foldl (fun s i => T.filterMaxStep (i.mid : Int) s) (T.filterMaxInit oldMax)) := by
+  unfold filterStats T.filterMinInit T.filterMaxInit
+  generalize keptIDs ids appended = l
+  have key : ∀ (l : List SV.Fetch.ID) (a b : Nat),
+      (((l.foldl (fun s i => (if i.mid < s.1 then i.mid else s.1, if i.mid > s.2 then i.mid else s.2)) (a, b)).1 : Nat) : Int)
+        = l.foldl (fun s i => T.filterMinStep (i.mid : Int) s) (a : Int)
+      ∧ (((l.foldl (fun s i => (if i.mid < s.1 then i.mid else s.1, if i.mid > s.2 then i.mid else s.2)) (a, b)).2 : Nat) : Int)
+        = l.foldl (fun s i => T.filterMaxStep (i.mid : Int) s) (b : Int) := by
+    intro l
+    induction l with
+    | nil => intro a b; exact ⟨rfl, rfl⟩
+    | cons x t ih =>
+      intro a b
+      simp only [List.foldl_cons]
+      have e1 : T.filterMinStep (x.mid : Int) (a : Int) = ((if x.mid < a then x.mid else a : Nat) : Int) := by
+        unfold T.filterMinStep; simp only []; split <;> split <;> omega
+      have e2 : T.filterMaxStep (x.mid : Int) (b : Int) = ((if x.mid > b then x.mid else b : Nat) : Int) := by
+        unfold T.filterMaxStep; simp only []; split <;> split <;> omega
+      rw [e1, e2]
+      exact ih _ _
+  exact key l 18446744073709551615 0
 
 end SV.Props.C04
